@@ -29,6 +29,12 @@ type zeroer struct{ V, Mark int }
 
 func (z zeroer) IsZero() bool { return z.V == 0 }
 
+// weirdZero's method disagrees with the zero value: IsZero "returns true if the
+// value is zero; the method is ALSO used" - so both {0} and {5} are zero.
+type weirdZero struct{ V int }
+
+func (w weirdZero) IsZero() bool { return w.V == 5 }
+
 func digitsRefI(v int64) (d, ds int) {
 	s := strconv.FormatInt(v, 10)
 	if v < 0 {
@@ -487,6 +493,86 @@ func c20samples(c *core.Ctx) {
 		}
 		c.Count("samples_float", 1)
 	}
+	// variadic lists of 0..8 arguments: left-to-right evaluation is observable on floats
+	// (rounding and overflow depend on the grouping), and Min/Max must scan every position
+	{
+		pool := []float64{1e16, 1, -1e16, 0.1, 3, math.MaxFloat64, -math.MaxFloat64, 1e-9, 0.7, -2.5, 1e308, 2}
+		for k := 0; k < 40; k++ {
+			n := r.Range(0, 8)
+			args := make([]float64, n)
+			for i := range args {
+				args[i] = pool[r.Intn(len(pool))]
+			}
+			ws, wp := 0.0, 1.0
+			for _, a := range args {
+				ws += a
+				wp *= a
+			}
+			gs, gp := typ.Sum(args...), typ.Product(args...)
+			if !(gs == ws || (math.IsNaN(gs) && math.IsNaN(ws))) {
+				c20fail(c, "Sum:float64-variadic", fmt.Sprintf("Sum(%v)=%v, left-to-right + gives %v", args, gs, ws))
+				return
+			}
+			if !(gp == wp || (math.IsNaN(gp) && math.IsNaN(wp))) {
+				c20fail(c, "Product:float64-variadic", fmt.Sprintf("Product(%v)=%v, left-to-right * gives %v", args, gp, wp))
+				return
+			}
+			f32 := make([]float32, n)
+			var ws32, wp32 float32 = 0, 1
+			for i, a := range args {
+				f32[i] = float32(math.Mod(a, 1e6))
+				ws32 += f32[i]
+				wp32 *= f32[i]
+			}
+			if g := typ.Sum(f32...); g != ws32 && !(g != g && ws32 != ws32) {
+				c20fail(c, "Sum:float32-variadic", fmt.Sprintf("Sum(%v)=%v want %v", f32, g, ws32))
+				return
+			}
+			if g := typ.Product(f32...); g != wp32 && !(g != g && wp32 != wp32) {
+				c20fail(c, "Product:float32-variadic", fmt.Sprintf("Product(%v)=%v want %v", f32, g, wp32))
+				return
+			}
+			ints := make([]int16, n)
+			var si, pi int16 = 0, 1
+			for i := range ints {
+				ints[i] = int16(r.Uint64())
+				si += ints[i]
+				pi *= ints[i]
+			}
+			if typ.Sum(ints...) != si || typ.Product(ints...) != pi {
+				c20fail(c, "Sum/Product:int16-variadic", fmt.Sprintf("Sum/Product(%v)=%d/%d want %d/%d", ints, typ.Sum(ints...), typ.Product(ints...), si, pi))
+				return
+			}
+			if n > 0 {
+				mn, mx := ints[0], ints[0]
+				for _, v := range ints {
+					if v < mn {
+						mn = v
+					}
+					if v > mx {
+						mx = v
+					}
+				}
+				if typ.Min(ints...) != mn || typ.Max(ints...) != mx {
+					c20fail(c, "Min/Max:variadic", fmt.Sprintf("Min/Max(%v)=%d/%d want %d/%d", ints, typ.Min(ints...), typ.Max(ints...), mn, mx))
+					return
+				}
+				cs := make([]complex128, n)
+				var sc, pc complex128 = 0, 1
+				for i := range cs {
+					cs[i] = complex(args[i], float64(ints[i]))
+					sc += cs[i]
+					pc *= cs[i]
+				}
+				gsc, gpc := typ.Sum(cs...), typ.Product(cs...)
+				if !cEq(gsc, sc) || !cEq(gpc, pc) {
+					c20fail(c, "Sum/Product:complex-variadic", fmt.Sprintf("Sum/Product(%v)=%v/%v want %v/%v", cs, gsc, gpc, sc, pc))
+					return
+				}
+			}
+			c.Count("variadic_lists", 1)
+		}
+	}
 	// strings and complex
 	ss := []string{"", "a", "A", "ab", "b", "\x00", "é"}
 	for _, a := range ss {
@@ -554,6 +640,21 @@ func c20samples(c *core.Ctx) {
 			c20fail(c, "IsZero:method", "IsZero(time zero in another zone) should honour Time.IsZero")
 			return
 		}
+		if !typ.IsZero(weirdZero{}) || !typ.IsZero(weirdZero{5}) || typ.IsZero(weirdZero{1}) {
+			c20fail(c, "IsZero:zero-value-with-method", "IsZero must be true for the zero value and for values whose IsZero method says so")
+			return
+		}
+		if p, pv := core.Catch(func() {
+			if !typ.IsZero((*time.Time)(nil)) || !typ.IsZero((*zeroer)(nil)) {
+				c20fail(c, "IsZero:nil-pointer", "IsZero(nil pointer) must be true: nil is the zero value of a pointer type")
+			}
+		}); p {
+			c20fail(c, "IsZero:nil-pointer-panic", fmt.Sprintf("IsZero(nil pointer to a type with an IsZero value method) panicked: %v", pv))
+			return
+		}
+		if c.Violated() {
+			return
+		}
 		if typ.Tern(true, 1, 2) != 1 || typ.Tern(false, 1, 2) != 2 || typ.Tern(r.Intn(1) == 0, "a", "b") != "a" {
 			c20fail(c, "Tern", "Tern wrong")
 			return
@@ -589,6 +690,12 @@ func c20samples(c *core.Ctx) {
 	if c.WantSample() {
 		c.Sample(map[string]any{"sampled_64bit_values_prefix": vals[:12], "floats": len(fl)})
 	}
+}
+
+// cEq compares complex numbers treating NaN parts as equal to NaN parts.
+func cEq(a, b complex128) bool {
+	f := func(x, y float64) bool { return x == y || (x != x && y != y) }
+	return f(real(a), real(b)) && f(imag(a), imag(b))
 }
 
 func cmp64(a, b int64) int {
